@@ -30,6 +30,7 @@ var registry = map[string]entry{
 	"C06": {"model_checking", checks.C06},
 	"C07": {"translation_validation", checks.C07},
 	"C13": {"model_checking", checks.C13},
+	"C12": {"model_checking", checks.C12},
 	"C08": {"model_checking", checks.C08},
 	"C10": {"model_checking", checks.C10},
 	"C11": {"model_checking", checks.C11},
